@@ -254,5 +254,12 @@ def run(chk, prog):
     chk.check(ok, "R4", A.loc(mainf, unk[0]) if unk else mainf.where, "a start file of unknown type is refused with a message and a return", "main:unknown-start-format")
     for key_ in list(mm.eff.memo):
         chk.functions.add(key_[0])
+    # ---- R5: the start file named by the user is the one main tries to load -------------------------------------------------------------------
+    # "missing ... is refused with a message": the refusal happens in main/the factory on the name the options hand out, so nothing between
+    # the command line and getStartDistFile() may drop or replace that name other than the documented '/dev/null' = none spelling
+    # (writers of the bound fields and the normalisation idiom are decided under C20 R2; re-evaluated here for _startdistfile)
+    from .common import reeval
+    reeval(chk, prog, "C20", lambda i: i["rule"] == "R2" and ("_startdistfile" in i["what"] or "writers of _vm and of bound fields" in i["what"]),
+           "R5", "R5-start-file-name", 2)
     chk.notes.append("C11: record selection and guarded read, refresh before the first step for every start kind, block agreement, refusal discipline. "
                      "NOT decided: numerical equality of a split run and an uninterrupted run.")
